@@ -2,7 +2,7 @@
 From Coq Require Import List ZArith Bool.
 From Verif Require Import C05.Model C05.Spec C05.Codec C05.Trace
      C05.Proofs_base C05.Proofs_ledger C05.Proofs_index C05.Proofs_pure C05.Proofs_view
-     C05.Proofs_codec.
+     C05.Proofs_codec C05.Proofs_ghost C05.Proofs_sched.
 Import ListNotations.
 Open Scope Z_scope.
 
@@ -57,6 +57,38 @@ Theorem c05_restricted_admission : forall l,
 Proof. exact restricted_admission. Qed.
 Print Assumptions c05_restricted_admission.
 
+(* ---- recorded requests = last delivered object ---- *)
+
+(* for every history in which deliveries are recorded consistently (sync_op along the run), the
+   requests a reservation records for an assigned pod are those of the pod object delivered last
+   (deliver [] l, newest first); with c05_ledger: allocated = sum over the assigned pods of
+   mask(names, request of the last delivered object) *)
+Theorem c05_recorded_is_last_delivered : forall l,
+  all_along sync_op init_cache l = true ->
+  forall i q, In i (infos (crun init_cache l)) -> In q (r_assigned i) ->
+  exists r, last_req (fst q) (deliver [] l) = Some r /\ forall k, getv k (snd q) = getv k r.
+Proof. exact (fun l H => ghost_run l [] init_cache H (ghost_init [])). Qed.
+Print Assumptions c05_recorded_is_last_delivered.
+
+(* ---- scheduling cycles ---- *)
+
+(* a pod is assumed into reservation t by a scheduling cycle only if t is visited on the node
+   (matchableOnNode), is not allocate-once-and-used at that moment, and -- Restricted -- the
+   fit check passes at that moment *)
+Theorem c05_schedule_admits : forall c pu req n t,
+  lower c (HSchedule pu req n t) = [CAddPod t pu req] ->
+  exists i, find_info t (infos c) = Some i
+            /\ idx_mem n t (matchable c) = true
+            /\ nominate_gate i = true
+            /\ (s_policy (r_spec i) = 2 -> fits_reservation i req [] = []).
+Proof. exact schedule_admits. Qed.
+Print Assumptions c05_schedule_admits.
+
+Theorem c05_schedule_only_admits : forall c pu req n t,
+  lower c (HSchedule pu req n t) = [CAddPod t pu req] \/ lower c (HSchedule pu req n t) = [].
+Proof. exact schedule_nothing. Qed.
+Print Assumptions c05_schedule_only_admits.
+
 (* ---- allocate-once ---- *)
 
 Theorem c05_allocate_once : forall i,
@@ -84,10 +116,11 @@ Theorem c05_index : forall l,
 Proof. exact index_invariants_stable_histories. Qed.
 Print Assumptions c05_index.
 
-(* the same for histories of ENTRY POINTS (event handlers, assume/forget of pods, and
-   Plugin.Reserve / Plugin.Unreserve of a reserve pod on the node named by the call) *)
+(* the same for histories of ENTRY POINTS (event handlers, assume/forget of pods,
+   Plugin.Reserve / Plugin.Unreserve of a reserve pod on the node named by the call, and whole
+   scheduling cycles BeforePreFilter -> Filter -> NominateReservation -> Reserve of a pod) *)
 Theorem c05_index_entry_points : forall hs,
-  all_along node_stable_op init_cache (flat_map lower hs) = true ->
+  all_along node_stable_op init_cache (hops_cops init_cache hs) = true ->
   index_sound (hrun init_cache hs) /\ index_complete (hrun init_cache hs)
   /\ nomination_ok (hrun init_cache hs).
 Proof. exact index_invariants_entry_points. Qed.
@@ -114,7 +147,7 @@ Print Assumptions c05_index_needs_stable_nodes.
 
 Theorem c05_trace : forall hs,
   hist_nonneg hs = true ->
-  all_zero (codes hs (flags_of hs) (views_of hs)) = true.
+  all_zero (codes (claims init_cache hs) hs (flags_of hs) [] (views_of hs)) = true.
 Proof. exact trace_full. Qed.
 Print Assumptions c05_trace.
 
@@ -156,7 +189,9 @@ Definition ex_hist : list hop :=
     HRsvRemove 1 1 ].
 
 Example ex_hist_hyps :
-  hist_nonneg ex_hist = true /\ forallb (fun f : bool => f) (flags_of ex_hist) = true.
+  hist_nonneg ex_hist = true
+  /\ forallb (fun f : bool * option (list preq) =>
+                fst f && match snd f with Some _ => true | None => false end) (flags_of ex_hist) = true.
 Proof. vm_compute. auto. Qed.
 
 Example ex_hist_nontrivial :
@@ -170,9 +205,24 @@ Definition ex_pending : rspec := mkSpec 2 0 0 false true 0 0 [] [(1, 4)] [] fals
 Definition ex_retry : list hop :=
   [ HReserveRsv ex_pending 1; HUnreserveRsv ex_pending 1; HReserveRsv ex_pending 2 ].
 Example ex_retry_ok :
-  all_along node_stable_op init_cache (flat_map lower ex_retry) = true
+  all_along node_stable_op init_cache (hops_cops init_cache ex_retry) = true
   /\ on_node (hrun init_cache ex_retry) = [(2, [2])]
-  /\ all_zero (codes ex_retry (flags_of ex_retry) (views_of ex_retry)) = true.
+  /\ all_zero (codes (claims init_cache ex_retry) ex_retry (flags_of ex_retry) [] (views_of ex_retry)) = true.
+Proof. vm_compute. auto. Qed.
+
+(* scheduling into a Restricted reservation {cpu: 4}: 3 is admitted, a further 2 is not (the pod
+   goes to the node's own resources), an in-place resize of the first pod is followed *)
+Definition ex_sched : list hop :=
+  [ HRsvAdd (mkSpec 1 1 1 false false 2 0 [] [(1, 4)] [] false 0);
+    HSchedule 1 [(1, 3)] 1 1;
+    HSchedule 2 [(1, 2)] 1 1;
+    HPodUpdate (mkPev 1 [(1, 3)] 1 false 1 None) (mkPev 1 [(1, 1)] 1 false 1 None);
+    HSchedule 2 [(1, 2)] 1 1 ].
+Example ex_sched_ok :
+  map fst (htrace init_cache ex_sched) = [0; 1; 0; 0; 1]
+  /\ forallb (fun f : bool * option (list preq) =>
+                fst f && match snd f with Some _ => true | None => false end) (flags_of ex_sched) = true
+  /\ all_zero (codes (claims init_cache ex_sched) ex_sched (flags_of ex_sched) [] (views_of ex_sched)) = true.
 Proof. vm_compute. auto. Qed.
 
 Example ex_fit_admits :
